@@ -150,6 +150,25 @@ def sweep_lines(tier):
     return out
 
 
+def small_scope_lines(tier):
+    """every start with two options numbered in a boundary set x every single edit aimed at the same
+    set: all delta-class transitions with a neighbour on either side, systematically"""
+    S = [0, 1, 12, 13, 14, 268, 269, 270, 281, 282, 283, 537, 538, 539, 65535] if tier == "quick" else \
+        [0, 1, 2, 12, 13, 14, 25, 26, 27, 268, 269, 270, 271, 281, 282, 283, 537, 538, 539, 540, 807,
+         808, 65266, 65267, 65534, 65535]
+    out = []
+    for i, a in enumerate(S):
+        for b in S[i:]:
+            pre = "c04 udp 1 0 B 0 1 1 O %d 61 O %d - D 01 E" % (a, b)
+            for n in S:
+                out.append("%s I %d -" % (pre, n))
+                out.append("%s I %d @13,1 R %d" % (pre, n, a))
+                out.append("%s U %d @14,2" % (pre, n))
+            out.append("%s R %d R %d" % (pre, a, b))
+            out.append("%s R %d R %d" % (pre, b, a))
+    return out
+
+
 def resize_lines(r, n):
     """coap_pdu_check_resize on (alloc_size, max_size, size): around alloc, 2*alloc, 256, max"""
     out = []
@@ -209,6 +228,8 @@ def main(run):
         cases.append(gen_edit.line_of(pre, edits, dup))
     nsw = len(cases)
     cases += sweep_lines(run.tier)
+    nss = len(cases)
+    cases += small_scope_lines(run.tier)
     nrs = len(cases)
     cases += resize_lines(r, 2000 if run.tier == "quick" else 40000)
     # three separate runs: a crash storm in one group must not starve the others
@@ -221,7 +242,10 @@ def main(run):
     run.cov["driver_crashes"] = len(crashes)
     notrun = sum(1 for x in oc if x == "<not run>")
     run.cov["not_run"] = notrun
-    run.cov["leaf_sweep"] = {"cases": len(cases) - nsw,
+    run.cov["small_scope"] = {"cases": nrs - nss,
+                              "over": "two options numbered in a boundary set (all pairs) x one or two "
+                                      "edits {insert, insert+remove, update, remove both} aimed at the same set"}
+    run.cov["leaf_sweep"] = {"cases": nss - nsw,
                              "over": "single option K, insert K-d / remove again, d in {1,12,13,268,269,K}, "
                                      + ("every K in 1..65535" if run.tier == "thorough" else
                                         "K in 1..699 and every 97th K up to 65535")}
